@@ -126,9 +126,30 @@ def validSchedN (n : Nat) : List (Nat × SigSpec) → Bool
   | [p] => p.1 ≤ n
   | p :: q :: r => p.1 ≤ q.1 && validSchedN n (q :: r)
 
+def runN (md : Mode) : St → List EvN → St × List Obs
+  | s, [] => (s, [])
+  | s, e :: r =>
+    let p := execN md s e
+    let q := runN md p.1 r
+    (q.1, p.2 ++ q.2)
+
 /-- forget the nesting information -/
 def EvN.plain : EvN → Ev
   | .step m => .step m
   | .sig sp => .sig sp.g
+
+/-- the lifecycle automaton over schedules with nested deliveries (signals, nested or not, are not program steps) -/
+def pcRunN (L : Layout) : PC → List EvN → Option PC
+  | pc, [] => some pc
+  | pc, .sig _ :: r => pcRunN L pc r
+  | pc, .step m :: r =>
+    match pcNext L pc m with
+    | none => none
+    | some pc' => pcRunN L pc' r
+
+/-- body events of a schedule with nested deliveries -/
+def BodyN : EvN → Bool
+  | .sig _ => true
+  | .step m => Body (.step m)
 
 end MpVerif.C15
